@@ -32,6 +32,9 @@ type RCase struct {
 	// Stopped: number of QueryEvent calls made while the service has no connection (before
 	// the first Serve and between the cycles), through Service.Resource.
 	Stopped int `json:"stopped,omitempty"`
+	// Backlog: at the first Shutdown every worker is held by a callback, and callbacks of the
+	// groups that the second cycle uses are waiting behind them, not yet started.
+	Backlog bool `json:"backlog,omitempty"`
 }
 
 func (c RCase) String() string { b, _ := json.Marshal(c); return string(b) }
@@ -116,8 +119,12 @@ func runRestart(c RCase) (viol []string, nontrivial bool) {
 			viol = append(viol, "With: "+err.Error())
 			return
 		}
-		<-done
 		synctest.Wait()
+		select {
+		case <-done:
+		default:
+			viol = append(viol, fmt.Sprintf("cycle %d: a With callback on %s was accepted by the running, idle service but has not run", cycle, rid))
+		}
 	}
 	// a query event on a service without connection is a failed subscription: one nil call at
 	// once, nothing published, nothing left behind
@@ -151,7 +158,23 @@ func runRestart(c RCase) (viol []string, nontrivial bool) {
 	time.Sleep(time.Duration(c.Wait1) * time.Millisecond)
 	synctest.Wait()
 	shutdownAt := time.Now()
-	if err := s.Shutdown(); err != nil {
+	if c.Backlog {
+		release := make(chan struct{})
+		for w := 0; w < c.Workers; w++ {
+			_ = s.With(fmt.Sprintf("svc.qp.%d", 90+w), func(res.Resource) { <-release })
+		}
+		synctest.Wait()
+		for _, rid := range []string{"svc.q.1", "svc.q.2", "svc.qs.1"} {
+			_ = s.With(rid, func(res.Resource) {}) // waits behind the held workers; dropped by the Shutdown
+		}
+		shut := make(chan error, 1)
+		go func() { shut <- s.Shutdown() }()
+		synctest.Wait()
+		close(release)
+		if err := <-shut; err != nil {
+			viol = append(viol, "Shutdown: "+err.Error())
+		}
+	} else if err := s.Shutdown(); err != nil {
 		viol = append(viol, "Shutdown: "+err.Error())
 	}
 	<-exited
@@ -238,6 +261,7 @@ func TestPropRestart(t *testing.T) {
 			Emit2:   rapid.SliceOfN(rapid.SampledFrom(ridList), 0, 3).Draw(rt, "emit2"),
 			Req2:    rapid.Bool().Draw(rt, "req2"),
 			Stopped: rapid.SampledFrom([]int{0, 0, 1, 2}).Draw(rt, "stopped"),
+			Backlog: rapid.IntRange(0, 2).Draw(rt, "backlog") == 0,
 		}
 		var viol []string
 		var nt bool
